@@ -38,6 +38,7 @@ int k_order_choice;
 const char *k_env_exclude;
 int k_epoll_ctl_fail_fd = -1;
 int k_nofile_limit = 64;
+int k_sched_all;
 int k_nwaits, k_nwaits_blocking;
 
 void (*k_wait_entry_hook)(struct kwait_info *wi);
@@ -98,6 +99,7 @@ static int fd_alloc(int kind, int obj)
 			kfds[i].kind = kind;
 			kfds[i].obj = obj;
 			kfds[i].by_lib = !k_harness_ctx;
+			kfds[i].creator = sx_tid();
 			return i;
 		}
 	}
@@ -250,7 +252,8 @@ int close(int fd)
 	struct kfd *f;
 	int i, j;
 
-	sx_sched();
+	if (k_sched_all)
+		sx_sched();
 	if (!fd_ok(fd)) {
 		sx_fail("env.close-of-closed-descriptor");
 		errno = EBADF;
@@ -709,7 +712,10 @@ int epoll_ctl(int epfd, int op, int fd, struct epoll_event *ev)
 	struct kepoll *ep;
 	int j;
 
-	sx_sched();
+	/* a set is only ever waited on by its creator: changes made by the creator itself
+	 * commute with everything other threads do */
+	if (k_sched_all || (epfd >= 0 && epfd < KMAXFD && kfds[epfd].creator != sx_tid()))
+		sx_sched();
 	p_maybe_deliver();
 	ep = ep_of(epfd);
 	if (ep == NULL || !fd_ok(fd)) {
